@@ -20,7 +20,8 @@ RULE = ("X-band: bandsample on populations of 0..2000 words (heavy-tailed Zipf-l
         "items; hand-written files (duplicate keys, 1 or 3 fields, non-numeric / empty / signed / zero-padded "
         "counts, CRLF, missing final newline, CR or tab in a key) vs model 2003. A band case is non-trivial when at "
         "least 2 words pass the cutoff; a counter case when it has >= 2 keys; distinct by content hash.")
-TRUSTED = ["the UTF-8 codec and text-mode newline handling of CPython's open() as modelled by PyText.univ_nl / "
+TRUSTED = ["the translator tools/py2coq.py (structural map Python ast -> MiniPy constructors, fail-closed) and the MiniPy semantics (coq/theories/MiniPy.v) as a reading of CPython for the accepted fragment; validated on this run by evaluating the generated term with vm_compute against the real function / the hand-written model",
+           "the UTF-8 codec and text-mode newline handling of CPython's open() as modelled by PyText.univ_nl / "
            "split_lines (validated on the hand-written files of this run)",
            "int() is modelled only on the spellings [+-]?[0-9]+ (PyText/Band.py_int); other spellings CPython "
            "accepts (blanks, '_', non-ASCII digits) are not generated",
